@@ -68,7 +68,7 @@ Section Run.
 
   Definition run_with (fuel : nat) (w : world N) (q : kq) (f : simfn N) : res (sresult N N) :=
     Ksp.run_vertex_oriented (C:=N) (St:=N) ltb add zero (pos N) (graph_of N w) (traverse N w Forward) (Ok (w_init N w))
-      (search fuel w q) (spur_search fuel w q) (sim_of w f) (pq_pop (C:=N) ltb)
+      (search fuel w q) (spur_search fuel w q) (sim_of w f) (pop_min (C:=N) ltb)
       (kq_alg q) (yen_fuel (match ksp_query_k (kq_k q) (kq_qk q) with Ok k => k | _ => 0 end))
       (kq_k q) (kq_qk q) (kq_term q) (kq_source q) (kq_target q).
 
